@@ -16,7 +16,9 @@ META = dict(
          "integers are 32 bit) and Allowed(kind, options, document, source) = the set of outcomes {error, exact value, "
          "anything-but-panic} the statement permits. TLC enumerates every (shape, options, document) of the bounded "
          "catalogue (single fields of all 15 kinds x 19 option sets x 60 literals x pointer x typed/text source; "
-         "pairs, embedded, slices, maps, nested structs, inherit, client->server round trips), checks the sanity "
+         "pairs, embedded, slices, maps, nested structs, inherit, client->server round trips with strings that URLs / "
+         "queries / headers / JSON must escape, and two-call cases: same type and document twice, slices with "
+         "default=[..] included, the caller editing the first result in place in between), checks the sanity "
          "theorems of the relation on each and prints each case as JSON. The Go driver builds the struct type with "
          "reflect.StructOf, renders the document as JSON, YAML, map[string]any, conf documents with exact / "
          "snake_case / other-initial-case keys, form / path / header values or an httpc request against an "
@@ -35,7 +37,12 @@ META = dict(
          "and container fields in the httpc->httpx round trip (httpc renders them with fmt.Sprint / as nanoseconds, "
          "which httpx does not read back); map keys that conf's key canonicalisation would rewrite; range bounds "
          "beyond small integers (the code compares in float64); optional=dep, embedded optional structs, arrays, "
-         "TextUnmarshaler fields, multipart forms, conf.Load from files / env expansion, native Go values (int, "
+         "TextUnmarshaler fields, multipart forms, conf.Load from files / env expansion; in the round trip '/', '.', "
+         "'..', the empty string and control characters as path / header values (the part cannot carry them); in the "
+         "two-call family aliasing between a caller-supplied map and the result (every call gets a freshly rendered "
+         "document) and one default text shared by a []string and a []bool field (the process-wide cache of parsed "
+         "slice defaults is keyed by the text alone: `[]bool default=[true]` used first makes `[]string "
+         "default=[true]` fail with a type mismatch - inherited behaviour, observed, not generated); native Go values (int, "
          "float64) inside the map given to UnmarshalKey (json.Number is used, as the JSON layer produces). int and "
          "uint are taken as 64 bit. The numeric axioms of the specification (order of Points, literal attributes, "
          "kind bounds) are re-derived by the driver with math/big / strconv on every run (mismatch = exit 2). "
@@ -47,20 +54,23 @@ FINISH = dict(rule="cases = complete TLC enumeration (one initial state per case
                    "bounded catalogue per family; every case is executed through every applicable API rendering "
                    "(typed: UnmarshalJsonBytes, UnmarshalKey, UnmarshalYamlBytes, conf.LoadFromJsonBytes x 3 spellings, "
                    "conf.LoadFromYamlBytes; text: ParseForm, Parse, ParsePath, ParseHeaders; roundtrip: httpc.Do -> "
-                   "router -> httpx.Parse) twice in seeded random order; steps = API calls judged")
+                   "router -> httpx.Parse; twice: every typed API called twice with the same document, the first "
+                   "result edited in place and appended to in between) twice in seeded random order; steps = API calls judged")
 
 ALLK = ['"bool"', '"int8"', '"int16"', '"int32"', '"int64"', '"int"', '"uint8"', '"uint16"', '"uint32"', '"uint64"',
         '"uint"', '"float32"', '"float64"', '"string"', '"duration"']
 ALLO = ["req", "opt", "def", "defbig", "options", "optbig", "rcc", "roo", "rco", "roc", "rhi", "rlo", "optrange",
         "str", "stropts", "defopts", "defrange", "env5", "env300"]
-NLITS = 60
+NLITS = 66
 
 # literal indices (see Lits in UnmarshalContract.tla)
 L = {"0": 1, "1": 2, "2": 3, "5": 4, "7": 5, "10": 6, "-1": 7, "127": 8, "128": 9, "-128": 10, "-129": 11, "255": 12,
      "256": 13, "300": 14, "65536": 20, "2^31": 23, "2^53+1": 28, "2^63-1": 29, "2^63": 30, "2^64-1": 33, "2^64": 34,
      "0.1": 35, "0.5": 36, "1.5": 37, "1.0": 38, "5.0": 39, "1e2": 40, "3.5e38": 43, "1e39": 44, "1e400": 46,
      "true": 47, "false": 48, "abc": 49, "xyz": 50, "a b&c=d": 51, '"10"': 52, '"300"': 53, '"true"': 55, "10s": 56,
-     "1h": 57, "null": 58, "[1]": 59, "{x:1}": 60}
+     "1h": 57, "null": 58, "[1]": 59, "{x:1}": 60,
+     "hello world": 61, "100%": 62, "a+b": 63, "x&y=z?w#v": 64, "nihao": 65, 'say "hi"': 66}
+ESC = ("hello world", "100%", "a+b", "x&y=z?w#v", "nihao", 'say "hi"')
 
 
 def S(xs):
@@ -92,7 +102,7 @@ def plans(ctx):
     # single: all kinds x all option sets x pointer x both source classes (this run is also the model
     # check of the relation); quick leaves out the mid-range boundary literals, thorough offers all 60
     if ctx.quick:
-        alll = S(sorted(set(range(1, NLITS + 1)) - {3, 5, 6, 15, 16, 17, 18, 19, 21, 22, 24, 25, 26, 27, 31, 32, 36, 41, 42, 45, 48, 50, 54, 57}))
+        alll = S(sorted(set(range(1, NLITS + 1)) - {3, 5, 6, 15, 16, 17, 18, 19, 21, 22, 24, 25, 26, 27, 31, 32, 36, 41, 42, 45, 48, 50, 54, 57, 63, 64, 66}))
     out.append(("single", [job("single-%d" % i, "single", Q(g), allo, alll) for i, g in enumerate(split_kinds(allk, 5))]))
     if ctx.quick:
         k1 = ["int8", "uint8", "int64", "float32", "string", "duration"]
@@ -112,8 +122,11 @@ def plans(ctx):
                                     lits("5", "300", "abc", "1.5"), Q(["int8", "int64", "string", "float32"]),
                                     Q(["req", "opt"]), lits("5", "300", "abc"))]))
         out.append(("roundtrip", [job("roundtrip", "roundtrip", Q(["int8", "uint64", "float32", "string", "bool"]), Q(["req"]),
-                                      lits("5", "300", "1.5", "abc", "true", "2^64-1"),
-                                      Q(["int8", "string"]), Q(["req"]), lits("5", "abc", "a b&c=d"))]))
+                                      lits("5", "300", "1.5", "abc", "true", "2^64-1", *ESC),
+                                      Q(["int8", "string"]), Q(["req"]), lits("5", "abc", "a b&c=d", "hello world", "100%", "nihao"))]))
+        out.append(("twice", [job("twice-%d" % i, "twice", Q(g), Q(["req"]), lits("5", "300", "abc", "1.5", "true"),
+                                  litidx2=lits("5", "300", "abc", "xyz", "1.5", "true"))
+                              for i, g in enumerate(split_kinds(["string", "int8", "int64", "float64", "bool", "uint8"], 3))]))
     else:
         o1 = ["req", "opt", "def", "defbig", "options", "rcc", "roo", "str", "env300"]
         l1 = lits("5", "300", "-1", "256", "1.5", "1.0", "abc", "true", '"10"', "10s", "null", "2^63", "1e39")
@@ -141,9 +154,14 @@ def plans(ctx):
         rk = ["int8", "uint8", "int32", "int64", "uint64", "float32", "float64", "string", "bool"]
         out.append(("roundtrip", [job("roundtrip-%d" % i, "roundtrip", Q(g), Q(["req"]),
                                       lits("0", "5", "300", "-1", "127", "255", "1.5", "0.1", "abc", "a b&c=d", "true", "false",
-                                           "2^63-1", "2^64-1", "1e39"),
-                                      Q(["int8", "uint64", "string", "float32"]), Q(["req"]), lits("5", "abc", "a b&c=d", "0.1", "2^64-1"))
+                                           "2^63-1", "2^64-1", "1e39", *ESC),
+                                      Q(["int8", "uint64", "string", "float32"]), Q(["req"]),
+                                      lits("5", "abc", "a b&c=d", "0.1", "2^64-1", "hello world", "100%", "nihao", 'say "hi"'))
                                   for i, g in enumerate(split_kinds(rk, 3))]))
+        out.append(("twice", [job("twice-%d" % i, "twice", Q(g), Q(["req"]),
+                                  lits("5", "300", "-1", "abc", "1.5", "true", "null", "hello world"),
+                                  litidx2=lits("1", "5", "300", "abc", "xyz", "1.5", "true", "-1"))
+                              for i, g in enumerate(split_kinds(allk, 5))]))
     return out
 
 
